@@ -100,6 +100,11 @@ class C13(Check):
         for rot in range(7):
             for d in range(len(BIG)):
                 cs.append({"kind": "state", "rot": rot, "diff": d})
+        if self.thorough:
+            import itertools
+            perms = list(itertools.permutations(range(7)))
+            for i in range(0, len(perms), 60):
+                cs.append({"kind": "perms", "lo": i, "hi": min(i + 60, len(perms))})
         for m in range(len(BIG)):
             cs.append({"kind": "params", "mind": m})
         cs.append({"kind": "pubkey"})
@@ -117,7 +122,11 @@ class C13(Check):
         rng = Rng("c13-hashes")
         vals = [rng.bytes(32) for _ in range(7)]
         names = list(DOC_HASH_NAMES)
-        dev.hashes = {self.sel[DOC_HASH_NAMES[n]]: vals[(i + rot) % 7] for i, n in enumerate(names)}
+        if isinstance(rot, (list, tuple)):
+            perm = list(rot)
+        else:
+            perm = [(i + rot) % 7 for i in range(7)]
+        dev.hashes = {self.sel[DOC_HASH_NAMES[n]]: vals[perm[i]] for i, n in enumerate(names)}
         return dev
 
     def run_case(self, case, stats):
@@ -128,6 +137,13 @@ class C13(Check):
                 self.one_state(case, flags, stats, vs)
         elif k == "one-state":
             self.one_state(case, case["flags"], stats, vs)
+        elif k == "perms":
+            import itertools
+            perms = list(itertools.permutations(range(7)))
+            for j, perm in enumerate(perms[case["lo"]:case["hi"]]):
+                for d in range(len(BIG)):
+                    self.one_state({"kind": "state", "rot": list(perm), "diff": d},
+                                   (case["lo"] + j + d) % 8, stats, vs)
         elif k == "params":
             for net in (1, 2, 3, 0, 4, 255):
                 self.one_params(case, net, stats, vs)
